@@ -889,6 +889,89 @@ example : fuseTuple [.newaxis, .full] [.full, .sl ⟨1, none, 1⟩] = .ok [.newa
     full-length index tuples never have this form -/
 example : fuseTuple [.full, .full] [.sl ⟨0, some 3, 1⟩, .newaxis] = .indexError := by decide
 
+theorem cntIdx_splitNones (b : List Ix) : cntIdx (splitNones b).2 = cntIdx b := by
+  induction b with
+  | nil => rfl
+  | cons y t ih => cases y <;> simp [splitNones, cntIdx, ih]
+
+theorem splitNones_head (b : List Ix) : ∀ y r, (splitNones b).2 = y :: r → y ≠ .newaxis := by
+  induction b with
+  | nil => intro y r h; simp [splitNones] at h
+  | cons z t ih =>
+    intro y r h
+    cases z with
+    | newaxis => simp only [splitNones] at h; exact ih y r h
+    | int n => simp only [splitNones, List.cons.injEq] at h; rw [← h.1]; simp
+    | sl s => simp only [splitNones, List.cons.injEq] at h; rw [← h.1]; simp
+    | full => simp only [splitNones, List.cons.injEq] at h; rw [← h.1]; simp
+
+theorem push_ne_indexError (pre : List Ix) (res : Res) (h : res ≠ .indexError) : res.push pre ≠ .indexError := by
+  cases res with
+  | ok r => simp [Res.push]
+  | notImplemented => simp [Res.push]
+  | indexError => exact absurd rfl h
+
+/-- **fuse_tuple_no_index_error.** When `b` indexes at least as many axes as `a` leaves (true for dask's index tuples, which
+    are full length: one entry per axis of the array they are applied to), the walk never runs off the end of `b`. -/
+theorem fuse_tuple_no_index_error (a : List Ix) : ∀ b : List Ix, cntAxes a ≤ cntIdx b → fuseTuple a b ≠ .indexError := by
+  induction a with
+  | nil => intro b _; simp [fuseTuple]
+  | cons x a ih =>
+    intro b hle
+    by_cases hcond : (x.isInt || b.isEmpty) = true
+    · simp only [fuseTuple, hcond, if_true]
+      apply push_ne_indexError
+      cases b with
+      | nil => rw [fuseTuple_nil]; simp
+      | cons y b' =>
+        have hx : x.isInt = true := by simpa using hcond
+        cases x with
+        | int n => exact ih _ (by simpa [cntAxes] using hle)
+        | sl s => simp [Ix.isInt] at hx
+        | full => simp [Ix.isInt] at hx
+        | newaxis => simp [Ix.isInt] at hx
+    · simp only [fuseTuple, hcond]
+      have hx : x.isInt = false := by
+        cases hh : x.isInt with
+        | false => rfl
+        | true => simp [hh] at hcond
+      have hax : cntAxes (x :: a) = cntAxes a + 1 := by
+        cases x with
+        | int n => simp [Ix.isInt] at hx
+        | sl s => rfl
+        | full => rfl
+        | newaxis => rfl
+      have hcnt := cntIdx_splitNones b
+      have hhead := splitNones_head b
+      revert hcnt hhead
+      cases splitNones b with
+      | mk k rest =>
+        cases rest with
+        | nil =>
+          intro hcnt _
+          simp only [cntIdx] at hcnt
+          omega
+        | cons y b' =>
+          intro hcnt hhead
+          simp only
+          cases hz : fuseIx x y with
+          | none => simp
+          | some z =>
+            simp only
+            apply push_ne_indexError
+            apply ih
+            have hy : y ≠ .newaxis := hhead y b' rfl
+            have : cntIdx (y :: b') = cntIdx b' + 1 := by
+              cases y with
+              | newaxis => exact absurd rfl hy
+              | int n => rfl
+              | sl s => rfl
+              | full => rfl
+            simp only at hcnt
+            omega
+
+example : cntAxes [.full, .full] ≤ cntIdx [.sl ⟨0, some 3, 1⟩, .newaxis, .full] := by decide
+
 end FuseSlice
 
 end Dask.C25
